@@ -24,7 +24,8 @@ fn render(sym: &[String]) -> String {
 pub fn replay(args: &Args) {
     let cases = read_ndjson(args.req("in"));
     let mut rep = Report::new(args.get("prop").unwrap_or("C18"), args.req("out"));
-    for v in &cases {
+    for v in cases {
+        let v = &v;
         match get_str(v, "op") {
             "dur" => {
                 rep.cases += 1;
